@@ -827,6 +827,10 @@ O(id='SEQUENCE_encode_uper.cbfail', props=['C07'], kind='bounded', entry='h_SEQU
   unwind=10, cbmc=['--unwindset', 'asn_put_few_bits:4,vf_cb.0:42', '--no-malloc-may-fail'], bound='every value and presence combination; the output callback refuses one call (any of the first 6), scratch space pre-filled', min_props=60, timeout=900,
   **dict(SQU, defines=['VF_CB_CAP=40']))
 
+O(id='OCTET_STRING_xer.grid', props=['C01', 'C02', 'C07'], kind='native', harness='harness/grid_os_xer.c', entry='main',
+  functions=['OCTET_STRING_encode_xer', 'BIT_STRING_encode_xer', 'OCTET_STRING__convert_hexadecimal', 'OCTET_STRING__convert_binary'], no_canary=True,
+  bound='native grid under ASan/UBSan: OCTET STRING and BIT STRING of every length 0..70 (0..7 unused bits) x 3 content patterns x BASIC and CANONICAL XER: text against the contents, size accounting, conversion back', timeout=600)
+
 for _o in OBLIGATIONS:
     if _o.get('enforce') and _o.get('kind') in ('enforce', 'width') and _o.get('tier') == 'quick' and 'C19' not in _o['props']:
         _o['props'] = _o['props'] + ['C19']
